@@ -194,7 +194,15 @@ pub fn gen(seed: u64, n: usize, out: &mut String) {
             0 | 1 => { let w = r.below(5) as usize; format!("RES {}", gen_res(&mut r, w, None, faulty).s()) }
             2 => { let big = r.chance(1, 4); let o = r.below(if big { 33 } else { 8 }) as usize; format!("QP {}", gen_qp(&mut r, o, faulty).s()) }
             3 | 4 | 5 | 6 => { let bf = faulty && r.chance(1, 3); let bps = gen_bps(&mut r, bf); let block = 4 + r.below(40) as usize; gen_sub(&mut r, block, bps, faulty) }
-            7 => format!("FH {}", gen_header(&mut r, faulty).0),
+            7 => { // a header alone: half of them with a block size from the whole range - every 576*2^k and 256*2^k (also beyond the
+                   // code tables' last entries: 9216, 18432, 36864 / 65536), their neighbours, and any size up to 65535
+                   let h = gen_header(&mut r, faulty).0;
+                   if r.chance(1, 2) {
+                       let base = match r.below(3) { 0 => 576usize << r.below(7), 1 => 256usize << r.below(9), _ => 1 + r.below(65535) as usize };
+                       let blk = match r.below(4) { 0 => base.saturating_sub(1).max(1), 1 => base + 1, _ => base };
+                       let rest = h.split_once(' ').map(|x| x.1.to_string()).unwrap_or_default();
+                       format!("FH {} {}", blk, rest)
+                   } else { format!("FH {}", h) } }
             8 | 9 => {
                 let hf = faulty && r.chance(1, 3);
                 let (h, block, bps, cha) = gen_header(&mut r, hf);
